@@ -416,3 +416,94 @@ def optimise_region_contract():
     c.region_name = "multi-start loop, branch selection and back-transformation"
     c.loop_select = loop_select
     return c
+
+
+# ---------------------------------------------------------------------- test_all.main: one result row per function (C14, C10)
+def _main_rows_region_ta(fnode):
+    import ast
+    pre, body = [], None
+    for s in fnode.body:
+        if isinstance(s, ast.Assign) and len(s.targets) == 1 and isinstance(s.targets[0], ast.Name) and s.targets[0].id in ("max_param", "chi2", "params"):
+            pre.append(s)
+        if isinstance(s, ast.For) and any(isinstance(n, ast.Call) and getattr(n.func, "id", None) == "optimise_fun" for n in ast.walk(s)):
+            body = s.body
+            break
+    if len(pre) != 3 or body is None:
+        return None
+    return pre + body
+
+
+def main_rows_contract(variant):
+    """test_all.main: entry i of chi2 and row i of params are the two results of ONE optimise_fun call for function i (variant ok), or NaN / a zero row
+    when the fit raises, times out or hits NameError without integration (variants exception / nameerror); other rows are untouched; the parameter table has
+    max(4, floor((comp - 1) / 2)) columns, the number optimise_fun is told to return."""
+    from pyvc.models import PyRaise
+    from pyvc.values import VTuple, VFloat, HSeq, H2D, VBool, VLabel, Label, fresh_name, as_float, fsame
+    NP = z3.Int("NP")
+    OFc = z3.Function("OF.chi2", z3.IntSort(), z3.RealSort())
+    OFcn = z3.Function("OF.chi2.nan", z3.IntSort(), z3.BoolSort())
+    OFci = z3.Function("OF.chi2.inf", z3.IntSort(), z3.BoolSort())
+    OFp = z3.Function("OF.params", z3.IntSort(), z3.IntSort(), z3.RealSort())
+
+    def mk_fl(eng, st):
+        v = eng.fresh(T.list(T.label), "fcn_list_proc", st)
+        st.heap[v.addr].len = NP
+        return v
+
+    def optimise_fun_contract():
+        def returns(eng, st, a):
+            if variant == "nameerror":
+                raise PyRaise("NameError")
+            if variant == "exception":
+                raise PyRaise("TimeoutException")
+            i = st.env["i"].t
+            mp = a["max_param"].t
+            return VTuple([VFloat(OFc(i), nan=OFcn(i), inf=OFci(i), pos=True), st.alloc(HSeq(mp, lambda c: VFloat(OFp(i, c)), numpy=True, etype=T.real))])
+
+        def requires(S, a):
+            return [("optimise_fun is asked for as many parameters as the table has columns", a["max_param"].t == S.var("max_param").t),
+                    ("the function fitted in iteration i is function i of this rank", a["fcn_i"].t == S.seq(S.var("fcn_list_proc")).get(S.var("i").t).t)]
+        names = ["fcn_i", "likelihood", "tmax", "pmin", "pmax", "comp", "try_integration", "log_opt", "max_param", "Niter_params", "Nconv_params", "ignore_previous_eqns"]
+        params = {n: T.fn for n in names}
+        params.update({"fcn_i": T.label, "max_param": T.int})
+        return Contract("optimise_fun", params, requires=requires, returns=returns)
+
+    def setup(eng, st, args):
+        eng.contracts["optimise_fun"] = optimise_fun_contract()
+        for nm in ("likelihood", "tmax", "pmin", "pmax", "log_opt", "Niter_params", "Nconv_params", "ignore_previous_eqns"):
+            st.env[nm] = __import__("pyvc.values", fromlist=["VFn"]).VFn(z3.Const("arg." + nm, __import__("pyvc.values", fromlist=["Fn"]).Fn))
+        st.env["try_integration"] = VBool(False)
+        st.env["rank"] = VInt(z3.Int("rank"))
+        st.env["print_frequency"] = VInt(z3.Int("print_frequency"))
+        st.env["comp"] = VInt(z3.Int("comp"))
+        eng.models["np.floor"] = eng.models.get("np.floor")
+
+    def requires(S, a):
+        return [("sizes", z3.And(NP >= 1, 0 <= a["i"].t, a["i"].t < NP, z3.Int("print_frequency") >= 1, z3.Int("comp") >= 1))]
+
+    def ensures(S, a, res):
+        st = S.st
+        i = a["i"].t
+        for nm in ("chi2", "params", "max_param"):
+            if nm not in st.env:
+                return [("the per-rank tables are allocated", z3.BoolVal(False))]
+        C, P = S.seq(S.var("chi2")), st.heap[S.var("params").addr]
+        mp = S.var("max_param").t
+        r, c = z3.Int(fresh_name("r!sk")), z3.Int(fresh_name("c!sk"))
+        comp = z3.Int("comp")
+        out = [("one likelihood entry and one parameter row per function of this rank; max(4, floor((comp - 1) / 2)) parameter columns",
+                z3.And(C.len == NP, P.rows == NP, P.cols == mp, mp >= 4, 2 * mp + 2 > comp - 1, z3.Or(mp == 4, 2 * mp <= comp - 1))),
+               ("rows other than i are untouched", z3.Implies(z3.And(0 <= r, r < NP, r != i, 0 <= c, c < mp),
+                                                            z3.And(as_float(C.get(r)).is_fin(), as_float(C.get(r)).val == 0, as_float(P.get(r, c)).val == 0)))]
+        ci = as_float(C.get(i))
+        if variant == "ok":
+            out.append(("entry i and row i are the two results of one optimise_fun call for function i",
+                        z3.And(fsame(ci, VFloat(OFc(i), nan=OFcn(i), inf=OFci(i), pos=True)), z3.Implies(z3.And(0 <= c, c < mp), as_float(P.get(i, c)).val == OFp(i, c)))))
+        else:
+            out.append(("a fit that raises or times out is recorded as NaN with a zero parameter row", z3.And(ci.nan, z3.Implies(z3.And(0 <= c, c < mp), as_float(P.get(i, c)).val == 0))))
+        return out
+
+    c = Contract("main", {"fcn_list_proc": mk_fl, "i": T.int}, requires=requires, ensures=ensures, setup=setup, region=_main_rows_region_ta,
+                 raises=lambda S, a, e: z3.BoolVal(False))
+    c.region_name = "rows: one result row per function (%s)" % variant
+    return c
